@@ -6,7 +6,9 @@ package certs
 //@ func TemplateFromCert
 //@   requires cert != nil
 //@   assigns nothing
-//@   ensures[C12] err == nil ==> result != nil && fresh(result) && result.Subject.SerialNumber == bigStr(result.SerialNumber)
+// (C10: gcsca names a certificate object after the subject serial, so a rotated certificate that kept its predecessor's
+// subject serial would be stored over the current primary's certificate before the manifest is switched)
+//@   ensures[C12,C10] err == nil ==> result != nil && fresh(result) && result.Subject.SerialNumber == bigStr(result.SerialNumber)
 //@   ensures[C12] err == nil ==> result.IsCA == cert.IsCA && result.KeyUsage == cert.KeyUsage && result.SignatureAlgorithm == cert.SignatureAlgorithm
 //@   ensures[C12] err == nil && cert.IsCA ==> result.NotAfter == timeAdd(result.NotBefore, 9131 * 24 * 3600000000000)
 //@   ensures[C12] err == nil && !cert.IsCA ==> result.NotAfter == timeAdd(result.NotBefore, 1826 * 24 * 3600000000000) && result.Issuer == cert.Issuer
